@@ -204,15 +204,19 @@ def run_tlc(
     deadlock=False,
     coverage=False,
     allow_violation=False,
+    heavy=False,
 ):
     """Run TLC on spec/<module>.tla with config file `cfg` (path relative to spec/ or absolute)."""
     t0 = time.time()
     meta = os.path.join(scratch(), "tlc-%d-%d" % (os.getpid(), int(time.time() * 1e6) % 10**9))
     os.makedirs(meta, exist_ok=True)
     cfgp = cfg if os.path.isabs(cfg) else os.path.join(SPEC, cfg)
+    # Most runs judge a few hundred to a few thousand cases and live for seconds: JIT compilation beyond C1 and a parallel collector
+    # cost more than they give (measured: 7.4 s -> 4.5 s for a 354-case shard).  `heavy` runs (design-level model checking) keep them.
+    jvm = ["-XX:+UseParallelGC"] if heavy else ["-XX:TieredStopAtLevel=1", "-XX:+UseSerialGC"]
     cmd = [
         "java",
-        "-XX:+UseParallelGC",
+        *jvm,
         "-Xmx" + heap,
         "-Xss16m",
         "-cp",
@@ -283,9 +287,16 @@ def run_shards(module, cfg, shard_files, envkey="CASES_FILE", procs=4, workers=4
         return list(ex.map(one, shard_files))
 
 
-def write_shards(cases, prefix, max_bytes=4_000_000, min_shards=1):
-    """Serialise cases into JSON array files of bounded size.  Returns file paths.
+# Launching a JVM costs 1-4 s here (more when several start at once and the page cache is cold), so a corpus is cut into few, large
+# shards: as many as TLC processes run side by side, more only when a shard would exceed SHARD_BYTES.
+SHARD_PROCS = 4
+SHARD_BYTES = 14_000_000
+
+
+def write_shards(cases, prefix, max_bytes=None, min_shards=None):
+    """Serialise cases into JSON array files.  Returns file paths.  (max_bytes / min_shards of callers are ignored: central policy above.)
     Each case gets its index in the whole corpus as field 'cix' (carried into verdicts)."""
+    max_bytes, min_shards = SHARD_BYTES, SHARD_PROCS
     paths = []
     cur, size = [], 0
     blobs = []
